@@ -1,6 +1,6 @@
 (* C14 - Literals mean what they spell; layout and comments mean nothing.
    Only statements here; proofs are in Proofs/LexerProofs.v. *)
-From EF Require Import Model.Base Gen.Tables Model.Lexer Spec.LexSpec Proofs.LexerProofs.
+From EF Require Import Model.Base Gen.Tables Model.Lexer Spec.LexSpec Spec.Unlex Proofs.LexerProofs Proofs.UnlexProofs.
 Open Scope N_scope.
 
 Definition EOFtok := mkTok TEOF [].
@@ -91,3 +91,21 @@ Proof. exact LexerProofs.leading_comment. Qed.
 Example C14_example_string :
   lex (quote 34 (L "a\b""c")) = Some [mkTok TString (L "a\b""c"); EOFtok].
 Proof. vm_compute. reflexivity. Qed.
+
+(* ------------------------------------------------------------------ *)
+(* WHOLE TOKEN STREAMS.  Every sequence of tokens the lexer can produce (identifiers, keywords, all
+   operators, integer / float / string / regexp literals, with `/` in a context where it means what the
+   token says) has a spelling - canonical spellings separated by one space - that the lexer maps back
+   to exactly that sequence; and replacing the separators by ANY blocks of white space and // comments
+   (each starting with a white-space character), with any layout in front, gives the same tokens. *)
+Theorem C14_lex_unlex : forall ts, lexable ts = true -> lex (unlex ts) = Some (ts ++ [mkTok TEOF []]).
+Proof. exact UnlexProofs.lex_unlex. Qed.
+
+Theorem C14_layout_irrelevant : forall pre tl,
+  layout_ok pre = true -> seps_ok tl = true -> lexable (map fst tl) = true ->
+  lex (render pre ++ unlex_layout tl) = lex (unlex (map fst tl)).
+Proof. exact UnlexProofs.lex_layout_irrelevant. Qed.
+
+(* non-vacuity: a sequence of 90 tokens covering every token type is lexable and round-trips *)
+Theorem C14_lex_unlex_example : lexable UnlexProofs.ex_all = true /\ lex (unlex UnlexProofs.ex_all) = Some (UnlexProofs.ex_all ++ [mkTok TEOF []]).
+Proof. exact (conj UnlexProofs.ex_all_lexable UnlexProofs.ex_all_roundtrip). Qed.
